@@ -62,6 +62,11 @@ type SCase struct {
 	FinalBad  int            `json:"final_bad,omitempty"` // !=0: the batch that completes the MPT (sent once <= FinalAt nodes are unknown) ends with a wrong node of this kind
 	FinalAt   int            `json:"final_at,omitempty"`
 	Trusted   int            `json:"trusted,omitempty"` // 0: headers from genesis; k>0: TrustedHeader configured, k selects its height among the admissible ones
+	// TrustedHigh (k>0, overrides Trusted): a TrustedHeader that passes every configuration rule but is RECENT: k selects
+	// its height from F = P-MaxTraceableBlocks+1 (the first block the blocks stage asks for: still fine) up to two above
+	// the sync point (never above the peer). Above F the headers of the blocks F.. are never fetched, so the node can
+	// not finish: it must say so up front (NewBlockchain / Init fail) or complete the synchronisation all the same.
+	TrustedHigh int `json:"trusted_high,omitempty"`
 }
 
 func genStep(t *rapid.T) Step {
@@ -152,6 +157,9 @@ func genSCase(t *rapid.T) SCase {
 	}
 	for i := 0; i < total; i++ {
 		c.Tail = append(c.Tail, rapid.SampledFrom([]int{0, 0, 0, 1, 1, 2, 3}).Draw(t, "tail"))
+	}
+	if rapid.IntRange(0, 5).Draw(t, "has_trusted_high") == 0 {
+		c.TrustedHigh = rapid.IntRange(1, 40).Draw(t, "trusted_high")
 	}
 	return c
 }
@@ -475,13 +483,16 @@ func (d *driver) getters(where string) error {
 	return nil
 }
 
+// initError is an error returned by Module.Init (the server logs it as fatal and exits).
+type initError struct{ error }
+
 // attach does what tryInitStateSync does after a (re)start.
 func (d *driver) attach(where string) error {
 	d.mod = d.n.bc.GetStateSyncModule()
 	d.storageInit = false
 	if d.mod.IsActive() && !d.mod.IsInitialized() {
 		if err := d.mod.Init(d.peerH); err != nil {
-			return fmt.Errorf("%s: Init(%d) failed (block height %d, header height %d): %v", where, d.peerH, d.n.bc.BlockHeight(), d.n.bc.HeaderHeight(), err)
+			return initError{fmt.Errorf("%s: Init(%d) failed (block height %d, header height %d): %v", where, d.peerH, d.n.bc.BlockHeight(), d.n.bc.HeaderHeight(), err)}
 		}
 		if d.mod.IsActive() {
 			if p := d.mod.GetStateSyncPoint(); p != d.src.P {
@@ -1254,7 +1265,35 @@ func checkSCase(c SCase, o *vt.Obs) error {
 	// TrustedHeader: NewBlockchain wants Index > max(2*StateSyncInterval, MaxTraceableBlocks); every block of the blocks
 	// stage (P-MTB(P)+1..P) must lie at or above it.
 	var trusted uint32
-	if c.Trusted > 0 {
+	tooRecent := false // the trusted header is above the first block of the blocks stage
+	switch {
+	case c.TrustedHigh > 0 && vt.Known(knownTrustedTooRecent):
+		o.Excluded()
+		o.Label("excluded/" + knownTrustedTooRecent)
+	case c.TrustedHigh > 0:
+		mtb := max(src.mtbP, c.Chain.MTB)
+		lo := max(uint32(2*I), c.Chain.MTB) + 1
+		first := uint32(1)
+		if P > mtb {
+			first = P - mtb + 1
+		}
+		lo = max(lo, first)
+		if hi := min(P+2, initAt); lo <= hi {
+			trusted = lo + uint32(c.TrustedHigh)%(hi-lo+1)
+			cfg.TrustedHeader = config.HashIndex{Hash: src.blk(trusted).Hash(), Index: trusted}
+			tooRecent = trusted > first
+			switch {
+			case !tooRecent:
+				o.Label("trusted-header: the first block of the blocks stage")
+			case trusted <= P:
+				o.Label("trusted-header-too-recent: above the first block of the blocks stage, at or below P")
+			default:
+				o.Labelf("trusted-header-too-recent: P+%d", trusted-P)
+			}
+		} else {
+			o.Label("trusted-header-infeasible")
+		}
+	case c.Trusted > 0:
 		mtb := max(src.mtbP, c.Chain.MTB)
 		lo := max(uint32(2*I), c.Chain.MTB) + 1
 		if P > mtb && lo <= P-mtb {
@@ -1267,6 +1306,10 @@ func checkSCase(c SCase, o *vt.Obs) error {
 	}
 	n, err := newSyncNode(cfg, c.Node.Backend)
 	if err != nil {
+		if tooRecent {
+			o.Label("trusted-header-too-recent: refused by NewBlockchain")
+			return nil
+		}
 		return fmt.Errorf("syncing node: %v", err)
 	}
 	d := &driver{c: c, o: o, src: src, n: n, peerH: initAt, capH: min(total, P+2*uint32(I)-1), trusted: trusted,
@@ -1274,7 +1317,14 @@ func checkSCase(c SCase, o *vt.Obs) error {
 	d.stats.restartStage = map[string]int{}
 	defer func() { d.n.close() }()
 	if err := d.attach("start"); err != nil {
+		if ie := (initError{}); tooRecent && errors.As(err, &ie) {
+			o.Label("trusted-header-too-recent: refused by Init")
+			return nil
+		}
 		return err
+	}
+	if tooRecent {
+		o.Label("trusted-header-too-recent: accepted (the synchronisation must complete)")
 	}
 	if !d.mod.IsActive() || !d.mod.NeedHeaders() {
 		return fmt.Errorf("fresh node after Init(%d): stage %s, expected to need headers", initAt, d.stage())
